@@ -482,6 +482,7 @@ pub struct Engine<'a> {
     fault_done: bool,
     pub fault_outcome: Option<String>,
     opened_once: bool,
+    pending_damage: Option<u8>,
 }
 
 type Cache<'b, 'tx> = HashMap<Path, Bucket<'b, 'tx>>;
@@ -503,6 +504,7 @@ impl<'a> Engine<'a> {
             fault_done: false,
             fault_outcome: None,
             opened_once: false,
+            pending_damage: None,
         }
     }
 
@@ -557,8 +559,11 @@ impl<'a> Engine<'a> {
     }
 
     fn open(&mut self) -> Option<DB> {
-        let before = simos::log_len();
         let existed = simos::bypass(|| std::path::Path::new(&self.cfg.path).exists());
+        if let (Some(kind), true) = (self.pending_damage.take(), existed) {
+            self.damage_older_header(kind);
+        }
+        let before = simos::log_len();
         simos::mark(Marker::OpenCall);
         let mut np = if self.opened_once { self.cfg.num_pages * self.cfg.reopen_np_factor.max(1) } else { self.cfg.num_pages };
         if let (true, Some(c)) = (self.opened_once, self.cfg.reopen_np_cycle) {
@@ -591,6 +596,41 @@ impl<'a> Engine<'a> {
                 self.fail("panic", &format!("open: {}", p), format!("open panicked: {}", p), false);
                 None
             }
+        }
+    }
+
+    /// Damage the header page that is not the current one (the other one stays intact, so the
+    /// committed state is unchanged and the model needs no adjustment).
+    fn damage_older_header(&mut self, kind: u8) {
+        let ps = self.cfg.pagesize as usize;
+        let (buf, _) = match simos::file_view_prefix(&self.cfg.path, 2 * ps) {
+            Some(v) => v,
+            None => return,
+        };
+        if buf.len() < 2 * ps {
+            return;
+        }
+        let cur = match fsck::choose_header(&buf, self.cfg.pagesize) {
+            Some(h) => h.slot as usize,
+            None => return,
+        };
+        let older = 1 - cur.min(1);
+        let base = (older * ps) as u64;
+        let page = &buf[older * ps..(older + 1) * ps];
+        let done = match kind % 5 {
+            // the first sector is lost
+            0 => simos::damage(&self.cfg.path, base, &vec![0u8; 512.min(ps)]),
+            // the page-type byte
+            1 => simos::damage(&self.cfg.path, base + 8, &[page[8] ^ 0x04]),
+            // one byte of the record (transaction id)
+            2 => simos::damage(&self.cfg.path, base + 32 + 56, &[page[32 + 56] ^ 0x01]),
+            // the whole page
+            3 => simos::damage(&self.cfg.path, base, &vec![0u8; ps]),
+            // the checksum
+            _ => simos::damage(&self.cfg.path, base + 32 + 64, &[page[32 + 64] ^ 0x80]),
+        };
+        if done {
+            self.out.stats.probe("older_header_damaged_before_open");
         }
     }
 
@@ -692,6 +732,7 @@ impl<'a> Engine<'a> {
                 Step::OpenReader => self.open_reader(db, readers),
                 Step::CloseReader { idx } => self.close_reader(readers, idx),
                 Step::Check => self.check_now(db),
+                Step::DamageOlderHeader { kind } => self.pending_damage = Some(kind),
                 _ => {}
             }
             if !readers.is_empty() {
@@ -843,7 +884,7 @@ impl<'a> Engine<'a> {
                     end = TxEnd::Reopen;
                     break;
                 }
-                Step::Begin { .. } | Step::Check => continue,
+                Step::Begin { .. } | Step::Check | Step::DamageOlderHeader { .. } => continue,
                 Step::OpenReader => {
                     self.open_reader(db, readers);
                 }
